@@ -461,7 +461,7 @@ class Command:
         """
         if not self.has_arguments():
             return False
-        if self.iscomplete(atype, avalue):
+        if self.iscomplete(atype, avalue) and self.required_args:
             return False
 
         if self.curarg is not None and "extra_arg" in self.curarg:
@@ -526,6 +526,9 @@ class Command:
                 break
 
             pos += 1
+        else:
+            # no argument matches
+            return False
 
         if failed:
             raise BadArgument(self.name, avalue, self.args_definition[pos]["type"])
